@@ -392,7 +392,51 @@ def state_valid(repo):
         + text + "\n\n"
         "/-- the remaining conjuncts (non-NULL tests, the load-factor double, the slots allocation), by name -/\n"
         "def stateValidOther : List String := [" + ", ".join('"' + n + '"' for n, _ in others) + "]\n\n"
+        "/-- `aws_hash_iter_is_valid` after its NULL / table-validity tests, as written: the `limit > size` test and the switch over\n"
+        "`iter->status` (DONE = 0, DELETE_CALLED = 1, READY_FOR_USE = 2); `slot_hash` = `slots[iter->slot].hash_code` -/\n"
+        + iter_valid(repo) + "\n\n"
         "end AwsVerif.Gen.HashValid\n")
+
+def iter_valid(repo):
+    """the tail of `aws_hash_iter_is_valid` (after the NULL / table-validity tests): the `limit > size` test and the switch
+    over the status, put into a stub over (limit, size, status, slot, hash code of the slot) and translated by gen/cfun.py"""
+    from gen import cfun, bytebuf_fns
+    path = os.path.join(repo, "source", "hash_table.c")
+    src = strip_c_comments(open(path).read())
+    try:
+        body = " ".join(bytebuf_fns.function_body(src, "aws_hash_iter_is_valid").split())
+    except cfun.GenError:
+        raise core.GenError("aws_hash_iter_is_valid not found in hash_table.c")
+    head = ("{ if (!iter) { return false; } if (!iter->map) { return false; } if (!aws_hash_table_is_valid(iter->map)) { return false; } ")
+    if not body.startswith(head):
+        raise core.GenError("aws_hash_iter_is_valid no longer starts with the NULL tests and aws_hash_table_is_valid(iter->map)")
+    tail = body[len(head):]
+    if not tail.endswith("} return false; }"):
+        raise core.GenError("aws_hash_iter_is_valid no longer ends with `switch (...) {...} return false;`")
+    tail = tail[:-len("} return false; }")] + "default: return false; } }"      # same meaning: no case matched
+    hdr = strip_c_comments(open(os.path.join(repo, "include", "aws", "common", "hash_table.h")).read())
+    m = re.search(r"enum\s+aws_hash_iter_status\s*\{\s*AWS_HASH_ITER_STATUS_DONE\s*,\s*AWS_HASH_ITER_STATUS_DELETE_CALLED\s*,\s*AWS_HASH_ITER_STATUS_READY_FOR_USE\s*,?\s*\}", hdr)
+    if not m:
+        raise core.GenError("enum aws_hash_iter_status is no longer DONE, DELETE_CALLED, READY_FOR_USE (0, 1, 2)")
+    for k, v in (("AWS_HASH_ITER_STATUS_DONE", "0"), ("AWS_HASH_ITER_STATUS_DELETE_CALLED", "1"), ("AWS_HASH_ITER_STATUS_READY_FOR_USE", "2")):
+        tail = tail.replace(k, v)
+    tail = tail.replace("iter->map->p_impl->slots[iter->slot].hash_code", "slot_hash").replace("iter->map->p_impl->size", "map_size")
+    tail = re.sub(r"\biter\s*->\s*(limit|slot|status)\b", r"iter_\1", tail)
+    ids = set(re.findall(r"\b[A-Za-z_]\w*\b", tail)) - {"if", "return", "false", "true", "switch", "case", "default", "SIZE_MAX"}
+    params = ["iter_limit", "map_size", "iter_status", "iter_slot", "slot_hash"]
+    if ids - set(params):
+        raise core.GenError(f"aws_hash_iter_is_valid reads {sorted(ids - set(params))} besides limit / size / status / slot / the slot's hash code")
+    stub = "static bool verif_hash_iter_valid(size_t iter_limit, size_t map_size, int iter_status, size_t iter_slot, uint64_t slot_hash) { " + tail + "\n"
+    inc = ["-I" + os.path.join(repo, "include"), "-I" + cbuild.config_include(), "-I" + os.path.join(repo, "source")]
+    nodes = cfun.dump_functions(f'#include "{path}"\n' + stub, "verif_hash_iter_valid", inc)
+    if "verif_hash_iter_valid" not in nodes:
+        raise core.GenError("stub for aws_hash_iter_is_valid was not parsed")
+    try:
+        tr = cfun.FnTranslator(bytebuf_fns.prepare(nodes["verif_hash_iter_valid"]), "iterValidInt", lambda c: None, {}, fuel=8)
+        text, info = tr.translate()
+    except cfun.GenError as e:
+        raise core.GenError("aws_hash_iter_is_valid: " + str(e))
+    return text
 
 
 def regen(ctx=None):
